@@ -112,6 +112,11 @@ func (P *Prog) verifyFunc(key string, sweepOnly bool) (res *FuncResult) {
 				bail("check clause %q could not be evaluated at any return (unknown local?)", ck.Label)
 			}
 		}
+		for _, ba := range con.BeforeAsserts {
+			if x.assertEval[ba.C] == 0 {
+				bail("assert clause %q: no direct call of %s was reached", ba.C.Label, ba.Callee)
+			}
+		}
 	}
 	res.Obls = x.obls
 	res.Paths = x.paths
